@@ -31,6 +31,18 @@ CLAIMED = {
         design_ref='DESIGN.md 4 C02',
         note=TRUST + 'Bounds: p per direction as listed; buffers/accessors for extents <= 4..8. Transpose sufficiency of the buffer '
                      'is the absence of numpy errors in the C01/C03 runs.'),
+    'C07': dict(
+        category='proof',
+        technique='concolic symbolic execution of the real spline kernels on exact z3 Real proxies; per-path polynomial identities decided by z3 (nlsat)',
+        text='Bounded solver proof in exact real arithmetic: the real kernels and dispatching classes run with the evaluation '
+             'point(s) and all coefficients symbolic; the span search forks on x, and on every path (cell, knot or end point) z3 '
+             'decides that value and first derivative equal an independent Cox-de Boor oracle on the knot vector the path uses, that '
+             'the basis is non-negative, sums to one, derivatives sum to zero, span in range, periodic closure (value; slope for '
+             'degree>=2), and that array / in-place / tensor-grid entry points and BSplines[i] agree with the oracle. Models are '
+             'searched in grades (1e-6,1e-9,1e-12) and replayed on the float code.',
+        design_ref='DESIGN.md 4 C07',
+        note=TRUST + 'Not claimed: IEEE rounding (e.g. int((x-xmin)/dx) one ulp inside a cell edge). Bounds: degrees 1-5 (thorough '
+                     '1-10), listed rational knot families, cells <= 8, 2-D degrees <= 5.'),
     'C20': dict(
         category='proof',
         technique='concolic symbolic execution of the real Python function on z3 Int proxies; per-path SMT queries (bounded)',
